@@ -70,16 +70,18 @@ def nest_text(rng, root, mode, with_var, with_fun):
         params.append("$a")
     if with_fun:
         params.append("g")
+        if rng.random() < 0.4:
+            params.append("h")          # a second filter parameter, handed on as well
+    rng.shuffle(params)                 # filter parameters also in non-last positions
     sig = "(" + "; ".join(params) + ")" if params else ""
 
     def call(target, step):
         args = []
-        if mode == "var":
-            args.append("$n + 1" if step else "$n")
-        if with_var:
-            args.append("$a")
-        if with_fun:
-            args.append("g")
+        for p in params:
+            if p == "$n":
+                args.append("$n + 1" if step else "$n")
+            else:
+                args.append(p)
         c = target.name + ("(" + "; ".join(args) + ")" if args else "")
         if mode == "dot" and step:
             c = "(%s | %s)" % ("g" if with_fun and rng.random() < 0.5 else ". + 1", c)
@@ -114,12 +116,8 @@ def nest_text(rng, root, mode, with_var, with_fun):
         return "def %s%s: %s %s;" % (d.name, sig, kids, wrap(rng, body, rng.choice([0, 0, 1])))
 
     args = []
-    if mode == "var":
-        args.append("0")
-    if with_var:
-        args.append("\"v\"")
-    if with_fun:
-        args.append(". + 1" if mode == "dot" else ".")
+    for p in params:
+        args.append({"$n": "0", "$a": "\"v\"", "g": ". + 1" if mode == "dot" else ".", "h": ". + 2"}[p])
     top = root.name + ("(" + "; ".join(args) + ")" if args else "")
     return text(root) + " " + top, sites[0]
 
